@@ -126,6 +126,7 @@ func env() []string {
 
 func fatal2(format string, a ...any) {
 	fmt.Printf("HARNESS-TROUBLE: "+format+"\n", a...)
+	cleanup()
 	os.Exit(2)
 }
 
@@ -157,6 +158,9 @@ func runWorker(bin string, extra map[string]string, timeout time.Duration) (stdo
 	cmd.Env = env()
 	for k, v := range extra {
 		cmd.Env = append(cmd.Env, k+"="+v)
+	}
+	if workerTmp != "" {
+		cmd.Env = append(cmd.Env, "TMPDIR="+workerTmp)
 	}
 	cmd.Dir = simDir
 	var sb strings.Builder
@@ -285,8 +289,10 @@ func main() {
 		// the replay file names its property; a race replay needs the race build
 		bin := build(strings.HasPrefix(prop, "C16"))
 		if d, err := os.MkdirTemp("", "vreplay-"); err == nil {
-			defer os.RemoveAll(d)
+			cleanupDirs = append(cleanupDirs, d)
 			raceLogBase = filepath.Join(d, "race")
+			workerTmp = filepath.Join(d, "tmp")
+			os.MkdirAll(workerTmp, 0o755)
 		}
 		ex := map[string]string{"VS_MODE": "replay", "VS_REPLAY": replay}
 		if verbose {
@@ -299,9 +305,11 @@ func main() {
 		}
 		if strings.Contains(out, `"same":true`) || (err != nil && !strings.Contains(out, `"replayed":true`)) {
 			fmt.Printf("VIOLATION property=%s replay=%s\n", prop, replay)
+			cleanup()
 			os.Exit(1)
 		}
 		fmt.Println("replay did not reproduce the recorded violation")
+		cleanup()
 		os.Exit(0)
 	}
 
@@ -340,6 +348,12 @@ func main() {
 		fatal2("%v", err)
 	}
 	defer os.RemoveAll(scratch)
+	cleanupDirs = append(cleanupDirs, scratch)
+	// the workers' own temporary directories (one per run) live inside the
+	// scratch directory, so that a worker that is killed or leaves through
+	// os.Exit cannot leave them behind
+	workerTmp = filepath.Join(scratch, "tmp")
+	os.MkdirAll(workerTmp, 0o755)
 	raceLogBase = filepath.Join(scratch, "race")
 	known := loadKnown(prop)
 
@@ -608,7 +622,19 @@ func main() {
 		fatal2("%v", err)
 	}
 	fmt.Printf("%s %s: %d runs (%d non-trivial distinct), %d violations, %.1fs, exit %d\n", prop, tier, len(recs), ev.distinct, violations, wall, exit)
+	cleanup()
 	os.Exit(exit)
+}
+
+// cleanupDirs: scratch directories to remove before the process leaves through
+// os.Exit (deferred calls do not run then).
+var cleanupDirs []string
+var workerTmp string
+
+func cleanup() {
+	for _, d := range cleanupDirs {
+		os.RemoveAll(d)
+	}
 }
 
 func tail(s string, n int) string {
